@@ -9,6 +9,7 @@ CONSTANTS
   MaxAdds = 6
   MaxEnds = 3
   AtomicAdd = TRUE
+  ClosedRefuses = TRUE
   SplitGet = FALSE
   RecheckOnStore = TRUE
   StaleTimers = TRUE
